@@ -218,7 +218,15 @@ BROKEN = {      # one representative per error class of the parser model; each s
 
 def goal_args(goal):
     g = goal['g']
-    return {'default': [], 'all': ['-a']}.get(g, None) if g in ('default', 'all') else ([str(goal['n'])] if g == 'count' else [goal['s']])
+    if g in ('default', 'all'):
+        return {'default': [], 'all': ['-a']}[g]
+    if g == 'count':
+        return [str(goal['n'])]
+    if g == 'name':
+        return [goal['s']]
+    if g == 'acount':
+        return ['-a', str(goal['n'])]
+    return [goal['s'], '-a'] if goal['s'].startswith('p2') else ['-a', goal['s']]     # "aname"
 
 
 def dry_prelude(w, args, skip=()):
@@ -247,6 +255,7 @@ def dry_compare(pre, rc, se):
 def state_job(job):
     case, threads = job[0], job[1]
     dry, failpos = (job[2], job[3]) if len(job) > 2 else (False, 0)
+    custom = job[4] if len(job) > 4 else None           # bytes of the broken patch file (instead of BROKEN[how])
     st, v = case['st'], case['verdict']
     n = st['n']
     w = ws.mkws('c17')
@@ -259,7 +268,7 @@ def state_job(job):
         for i, name in enumerate(st['series'], 1):
             if st['broken']['pos'] == i:
                 if st['broken']['how'] != 'missing':
-                    ws.write(w, 'patches/' + name, BROKEN[st['broken']['how']])
+                    ws.write(w, 'patches/' + name, custom if custom is not None else BROKEN[st['broken']['how']])
                 continue
             # failpos (C10 only): this patch does not apply (it expects a cell value the file never has)
             fp = {'kind': 'M', 'old': 'a', 'new': 'a', 'ren': False, 'hunks': [{'cell': i, 'from': 7 if i == failpos else 0, 'to': 1}], 'to': [], 'from': [], 'nmode': 'none'}
@@ -308,6 +317,41 @@ def check_c17(prop, tier):
         jobs = [(c, t) for c in cases for t in (1, 2)]
         with Pool(12) as pool:
             outs = pool.map(state_job, jobs, chunksize=16)
+        # "unparseable" is what the parser model (PatchText.tla) rejects: every token sequence of the MC_Tokens universes that the
+        # model rejects must be rejected by the real parser (in-process, all of them), and a sample of them, as the patch file
+        # at each position of a series, must make the push refuse cleanly
+        import p_text, toks
+        tcases = []
+        for tag, prefix, maxlen in p_text.PREFIXES[tier]:
+            out = os.path.join(work, tag + '.tlc')
+            stt = tlc('MC_Tokens', constants={'MaxLen': maxlen, 'EmitCases': 'TRUE', 'Prefix': prefix}, cfg_body=p_text.TOK_CFG, out=out, tag='c17-tok-' + tag)
+            res.add_tlc(stt, 'MC_Tokens/' + tag)
+            tcases += [c for c in tlc_json_lines(out) if not c['ok'] and not (c['trunc'] and c['toks'][-1]['k'] == 'empty')]
+            os.unlink(out)
+        tjobs = [(i, toks.render(c['toks'], seed() + i, c['trunc'])) for i, c in enumerate(tcases)]
+        tres = p_text.run_total(tjobs, res, strip=0)
+        nacc = 0
+        for (i, data), c in zip(tjobs, tcases):
+            r = tres.get(i)
+            if r is not None and r[0] == 'ok':
+                nacc += 1
+                res.violation('unparseable-accepted', 'a patch text the parser model rejects (%s) is accepted by the parser' % c['err'],
+                              {'tokens': c['toks'], 'truncated_last_line': c['trunc'], 'input': data.decode('latin-1')})
+        rnd = random.Random(seed())
+        pickc = [cs for cs in cases if cs['st']['broken']['pos'] >= 1 and cs['st']['broken']['how'] == 'garbage' and cs['verdict']['exit'] == 1 and cs['verdict']['hitsBroken']]
+        tsample = rnd.sample(range(len(tjobs)), min(len(tjobs), 400 if tier == 'quick' else 5000))
+        # (the file pushed is a good section followed by the rejected text; it is used when the parser rejects that, too)
+        whole = [(k, GOOD_SECTION + tjobs[ti][1]) for k, ti in enumerate(tsample)]
+        wres = p_text.run_total(whole, res, strip=0)
+        cjobs = [(pickc[k % len(pickc)], 1 + k % 2, False, 0, data) for k, data in whole if wres.get(k, ('',))[0] == 'err'] if pickc else []
+        with Pool(12) as pool:
+            couts = pool.map(state_job, cjobs, chunksize=16)
+        for (c, t, _, _, data), probs in zip(cjobs, couts):
+            for cat, msg in probs:
+                res.violation(cat, 'a patch file the parser model rejects, at position %d of the range: %s' % (c['st']['broken']['pos'], msg),
+                              {'state': c['st'], 'broken_patch_file': data.decode('latin-1'), 'threads': t})
+        res.cov['parts']['model-rejected-texts'] = {'token_sequences_rejected_by_model': len(tcases), 'accepted_by_parser': nacc, 'pushed_as_patch_file': len(cjobs)}
+        res.cov['traces_validated_against_impl'] += len(tcases) + len(cjobs)
         stats = {'states': len(cases), 'runs': len(jobs), 'expected_refusals': sum(1 for c in cases if c['verdict']['exit'] == 1)}
         for (c, t), probs in zip(jobs, outs):
             for cat, msg in probs:
